@@ -521,7 +521,10 @@ class Loop(object):
     clauses: the __CPROVER_ loop contract clauses.
     """
 
-    def __init__(self, header, clauses, nth=None, prefix=False):
+    def __init__(self, header, clauses, nth=None, prefix=False, optional=False):
+        # optional=True: a loop that may legitimately be absent (then its contract is simply not attached and the
+        # function contract has to hold without it -- a dropped loop shows up as a failed postcondition, not as exit 2)
+        self.optional = optional
         self.header = header
         self.clauses = clauses
         self.nth = nth
@@ -541,6 +544,10 @@ def mark_loops(text, loops, log):
     marks = {}
     for k, lp in enumerate(loops):
         ms = list(re.finditer(lp.header if lp.prefix else _ws_regex(lp.header), text))
+        if not ms or (lp.nth is not None and lp.nth >= len(ms)):
+            if getattr(lp, 'optional', False):
+                log.append({'rule': 'loop-contract NOT attached (optional loop absent)', 'header': lp.header})
+                continue
         if not ms:
             raise ExtractError('loop header not found: %s' % lp.header)
         if lp.nth is None:
@@ -570,6 +577,8 @@ def mark_loops(text, loops, log):
 def fill_loops(text, loops):
     for k, lp in enumerate(loops):
         tag = '/*@LOOP%d@*/' % k
+        if getattr(lp, 'optional', False) and text.count(tag) == 0:
+            continue
         if text.count(tag) != 1:
             raise ExtractError('loop marker %d lost during rewriting' % k)
         text = text.replace(tag, '\n' + lp.clauses.strip() + '\n')
